@@ -166,14 +166,18 @@ structure Geom (α : Type) where
 def centralScaled [Add α] [Sub α] [Div α] [NatCast α] [OfNat α 2] (h w : Nat) (g : Geom α) : α × α :=
   (((h - 1 : Nat) : α) / 2 + g.oy / g.sy, ((w - 1 : Nat) : α) / 2 - g.ox / g.sx)
 
-/-- `grid_2d_slim_via_mask_from`: `(-(y - c_y) * s_y, (x - c_x) * s_x)` for every unmasked pixel in
-    row-major order. -/
+/-- the coordinate assigned to pixel `(y,x)` by `grid_2d_slim_via_mask_from`:
+    `(-(y - c_y) * s_y, (x - c_x) * s_x)` with `c = central_scaled_coordinate_2d_from`. -/
+def pixelCentre [Add α] [Sub α] [Mul α] [Div α] [Neg α] [NatCast α] [OfNat α 2]
+    (h w : Nat) (g : Geom α) (p : Nat × Nat) : α × α :=
+  let c := centralScaled h w g
+  (-((p.1 : α) - c.1) * g.sy, ((p.2 : α) - c.2) * g.sx)
+
+/-- `grid_2d_slim_via_mask_from`: the centre of every unmasked pixel in row-major order. -/
 def gridSlimViaMask [Add α] [Sub α] [Mul α] [Div α] [Neg α] [NatCast α] [OfNat α 2]
     (m : Mask) (g : Geom α) : List (α × α) :=
-  let c := centralScaled m.h m.w g
   forYX m.h m.w
-    (fun acc y x =>
-      if !m.get y x then acc ++ [(-((y : α) - c.1) * g.sy, ((x : α) - c.2) * g.sx)] else acc) []
+    (fun acc y x => if !m.get y x then acc ++ [pixelCentre m.h m.w g (y, x)] else acc) []
 
 /-- `DeriveGrid2D.edge` / `.border`: `self.unmasked[slim_indexes]` -/
 def gridAt [Add α] [Sub α] [Mul α] [Div α] [Neg α] [NatCast α] [OfNat α 2] [OfNat α 0]
@@ -202,6 +206,21 @@ def footprintInside (h w kh kw : Nat) (p : Nat × Nat) : Prop :=
 
 instance (h w kh kw : Nat) (p : Nat × Nat) : Decidable (footprintInside h w kh kw p) := by
   unfold footprintInside; infer_instance
+
+/-- a neighbour position counts as masked when it lies beyond the array or holds `True`. -/
+def maskedZ (m : Mask) (y x : Int) : Prop :=
+  ¬ (0 ≤ y ∧ y < (m.h : Int) ∧ 0 ≤ x ∧ x < (m.w : Int)) ∨ m.get y.toNat x.toNat = true
+
+/-- edge pixel (repaired code): one of the eight neighbour positions counts as masked. -/
+def isEdge (m : Mask) (p : Nat × Nat) : Prop :=
+  ∃ dy dx : Int, -1 ≤ dy ∧ dy ≤ 1 ∧ -1 ≤ dx ∧ dx ≤ 1 ∧ (dy ≠ 0 ∨ dx ≠ 0)
+    ∧ maskedZ m ((p.1 : Int) + dy) ((p.2 : Int) + dx)
+
+/-- a straight walk from `p` to the array boundary in one of the four axis directions meets only
+    masked pixels (vacuous when `p` lies on that boundary). -/
+def clearWalk (m : Mask) (p : Nat × Nat) : Prop :=
+  (∀ r, r < p.1 → m.get r p.2 = true) ∨ (∀ c, p.2 < c → c < m.w → m.get p.1 c = true)
+    ∨ (∀ r, p.1 < r → r < m.h → m.get r p.2 = true) ∨ (∀ c, c < p.2 → m.get p.1 c = true)
 
 end Spec
 end Model
